@@ -3,18 +3,19 @@
     Mirrors (marketstore @ /repo):
       replication/sender.go:25-52        Sender: channel (cap defaultSenderChannelSize), Run's goroutine
                                          { tg := <-channel; replService.SendReplicationMessage(tg) }, Send { channel <- tg }
-      replication/grpc_server.go:42-78   GetWALStream (one goroutine per connected replica):
+      replication/grpc_server.go         GetWALStream (one goroutine per connected replica), AFTER the fix of F22a/b (known_findings.txt):
                                          ch := make(chan []byte, defaultReplicationStreamChannelSize);
-                                         rs.StreamChannels[clientAddr] = ch                (map write, NO lock)
+                                         mu.Lock(); rs.StreamChannels[clientAddr] = ch; mu.Unlock()
                                          for { tg := <-ch; if stream.Send(tg) fails: break }
-                                         delete(rs.StreamChannels, clientAddr)             (map write, NO lock)
-                                         close(ch)
-      replication/grpc_server.go:79-85   SendReplicationMessage: for ip, ch := range rs.StreamChannels { ch <- tg }
-                                                                                           (map iteration, NO lock; blocking send)
+                                         go func() { for range ch {} }()                   (drain until closed)
+                                         mu.Lock(); delete(rs.StreamChannels, clientAddr); close(ch); mu.Unlock()
+      replication/grpc_server.go         SendReplicationMessage: mu.RLock(); defer mu.RUnlock();
+                                         for ip, ch := range rs.StreamChannels { ch <- tg }  (blocking send, read lock held)
       executor/wal.go:318-321            the WAL loop calls ReplicationSender.Send after each TG's fsync
 
-    Atomic steps = the points where Go can interleave: channel sends/receives/close, and — because the
-    map is not protected — the BEGIN and END of every map write (runtime.mapassign / mapdelete set and
+    Atomic steps = the points where Go can interleave: channel sends/receives/close, lock/unlock of the
+    RWMutex, and — the runtime's fault detection is kept in the model so that "no fault" is a theorem about
+    the lock discipline, not an omission — the BEGIN and END of every map write (runtime.mapassign / mapdelete set and
     clear the hashWriting flag) and every advance of the iterator (runtime.mapiternext checks it).
     The runtime faults are explicit outcomes:
       PMapIterWrite   "fatal error: concurrent map iteration and map write"
@@ -31,21 +32,24 @@ Import ListNotations.
 Definition tg := nat.
 
 Inductive gpc :=
-| GNew            (* channel made; about to begin  StreamChannels[addr] = ch *)
-| GIns            (* inside mapassign *)
+| GNew            (* channel made; about to  mu.Lock()  and begin  StreamChannels[addr] = ch *)
+| GIns            (* write lock held, inside mapassign *)
 | GLoop           (* blocked in  <-streamChannel *)
 | GGot (t : tg)   (* received t; inside stream.Send *)
-| GDel            (* stream.Send failed; about to begin delete(StreamChannels, addr) *)
-| GDeling         (* inside mapdelete *)
-| GClose          (* about to close(streamChannel) *)
+| GDel            (* stream.Send failed; drainer goroutine started; about to  mu.Lock()  and begin delete(StreamChannels, addr) *)
+| GDeling         (* write lock held, inside mapdelete *)
+| GClose          (* write lock held; about to close(streamChannel) and unlock *)
 | GDone.
 
 Inductive spc :=
 | SIdle                                       (* blocked in <-s.channel *)
+| SWant (t : tg)                              (* received t; about to  mu.RLock() *)
 | SIter (t : tg) (snap vis : list nat)        (* in the range loop, about to call mapiternext *)
 | SHold (t : tg) (snap vis : list nat) (c : nat). (* iterator produced channel c; about to  c <- t *)
 
 Inductive pkind := PMapIterWrite | PMapWrites | PClosedSend.
+
+Inductive lockst := LkFree | LkRead | LkWrite (r : nat).
 
 Record chan := mkchan { q : list tg; closed : bool }.
 
@@ -57,6 +61,7 @@ Record st := mkst {
   chs : list chan;           (* the channel made by stream r *)
   smap : list (nat * nat);   (* StreamChannels: address -> channel (identified with the stream that made it) *)
   writing : option nat;      (* the stream currently inside mapassign/mapdelete *)
+  lock : lockst;             (* rs.mu: free, read-held by the sender, write-held by stream r *)
   sp : spc;
   schan : list tg;           (* Sender.channel *)
   committed : list tg;       (* ghost: TGs handed to Sender.Send, in commit order; TG ids are 0,1,2,... *)
@@ -82,46 +87,54 @@ Fixpoint upd {A} (n : nat) (v : A) (l : list A) : list A :=
   end.
 
 Definition init (ks : list nat) (cs cc : N) : st :=
-  mkst ks cs cc (map (fun _ => GNew) ks) (map (fun _ => mkchan [] false) ks) [] None SIdle [] []
+  mkst ks cs cc (map (fun _ => GNew) ks) (map (fun _ => mkchan [] false) ks) [] None LkFree SIdle [] []
        (map (fun _ => []) ks) None false.
 
 (** the state in which all replicas of [ks] are connected and nothing has been committed yet *)
 Definition init_stable (ks : list nat) (cs cc : N) : st :=
   mkst ks cs cc (map (fun _ => GLoop) ks) (map (fun _ => mkchan [] false) ks)
-       (combine ks (seq 0 (length ks))) None SIdle [] [] (map (fun _ => []) ks) None false.
+       (combine ks (seq 0 (length ks))) None LkFree SIdle [] [] (map (fun _ => []) ks) None false.
 
 Inductive label :=
 | Commit                    (* WAL loop: Sender.Send, s.channel <- tg *)
-| SRecv                     (* sender goroutine: tg := <-s.channel; the range statement starts *)
+| SRecv                     (* sender goroutine: tg := <-s.channel *)
+| SLock                     (* mu.RLock(); the range statement starts *)
 | SNext (k : nat)           (* mapiternext produces the entry of address k *)
-| SEnd                      (* mapiternext: iteration exhausted *)
+| SEnd                      (* mapiternext: iteration exhausted; deferred mu.RUnlock() *)
 | SSend                     (* channel <- tg *)
-| GInsB (r : nat) | GInsE (r : nat)   (* begin / end of StreamChannels[addr] = ch *)
+| GInsB (r : nat) | GInsE (r : nat)   (* mu.Lock() + begin / end of StreamChannels[addr] = ch + mu.Unlock() *)
 | GRecv (r : nat)           (* tg := <-streamChannel *)
 | GSend (r : nat) (ok : bool)  (* stream.Send returned nil / an error *)
-| GDelB (r : nat) | GDelE (r : nat)   (* begin / end of delete(StreamChannels, addr) *)
-| GCloseL (r : nat).        (* close(streamChannel) *)
+| GDelB (r : nat) | GDelE (r : nat)   (* mu.Lock() + begin / end of delete(StreamChannels, addr) *)
+| GCloseL (r : nat)         (* close(streamChannel); mu.Unlock() *)
+| GDrain (r : nat).         (* the drainer goroutine of a leaving stream discards one queued TG *)
 
-Definition set_gs s x := mkst (keys s) (capS s) (capC s) x (chs s) (smap s) (writing s) (sp s) (schan s) (committed s) (delivered s) (panic s) (race s).
-Definition set_chs s x := mkst (keys s) (capS s) (capC s) (gs s) x (smap s) (writing s) (sp s) (schan s) (committed s) (delivered s) (panic s) (race s).
-Definition set_smap s x := mkst (keys s) (capS s) (capC s) (gs s) (chs s) x (writing s) (sp s) (schan s) (committed s) (delivered s) (panic s) (race s).
-Definition set_writing s x := mkst (keys s) (capS s) (capC s) (gs s) (chs s) (smap s) x (sp s) (schan s) (committed s) (delivered s) (panic s) (race s).
-Definition set_sp s x := mkst (keys s) (capS s) (capC s) (gs s) (chs s) (smap s) (writing s) x (schan s) (committed s) (delivered s) (panic s) (race s).
-Definition set_schan s x := mkst (keys s) (capS s) (capC s) (gs s) (chs s) (smap s) (writing s) (sp s) x (committed s) (delivered s) (panic s) (race s).
-Definition set_committed s x := mkst (keys s) (capS s) (capC s) (gs s) (chs s) (smap s) (writing s) (sp s) (schan s) x (delivered s) (panic s) (race s).
-Definition set_delivered s x := mkst (keys s) (capS s) (capC s) (gs s) (chs s) (smap s) (writing s) (sp s) (schan s) (committed s) x (panic s) (race s).
-Definition set_panic s x := mkst (keys s) (capS s) (capC s) (gs s) (chs s) (smap s) (writing s) (sp s) (schan s) (committed s) (delivered s) (Some x) (race s).
-Definition set_race s (x : bool) := mkst (keys s) (capS s) (capC s) (gs s) (chs s) (smap s) (writing s) (sp s) (schan s) (committed s) (delivered s) (panic s) x.
+Definition set_gs s x := mkst (keys s) (capS s) (capC s) x (chs s) (smap s) (writing s) (lock s) (sp s) (schan s) (committed s) (delivered s) (panic s) (race s).
+Definition set_chs s x := mkst (keys s) (capS s) (capC s) (gs s) x (smap s) (writing s) (lock s) (sp s) (schan s) (committed s) (delivered s) (panic s) (race s).
+Definition set_smap s x := mkst (keys s) (capS s) (capC s) (gs s) (chs s) x (writing s) (lock s) (sp s) (schan s) (committed s) (delivered s) (panic s) (race s).
+Definition set_writing s x := mkst (keys s) (capS s) (capC s) (gs s) (chs s) (smap s) x (lock s) (sp s) (schan s) (committed s) (delivered s) (panic s) (race s).
+Definition set_sp s x := mkst (keys s) (capS s) (capC s) (gs s) (chs s) (smap s) (writing s) (lock s) x (schan s) (committed s) (delivered s) (panic s) (race s).
+Definition set_schan s x := mkst (keys s) (capS s) (capC s) (gs s) (chs s) (smap s) (writing s) (lock s) (sp s) x (committed s) (delivered s) (panic s) (race s).
+Definition set_committed s x := mkst (keys s) (capS s) (capC s) (gs s) (chs s) (smap s) (writing s) (lock s) (sp s) (schan s) x (delivered s) (panic s) (race s).
+Definition set_delivered s x := mkst (keys s) (capS s) (capC s) (gs s) (chs s) (smap s) (writing s) (lock s) (sp s) (schan s) (committed s) x (panic s) (race s).
+Definition set_panic s x := mkst (keys s) (capS s) (capC s) (gs s) (chs s) (smap s) (writing s) (lock s) (sp s) (schan s) (committed s) (delivered s) (Some x) (race s).
+Definition set_race s (x : bool) := mkst (keys s) (capS s) (capC s) (gs s) (chs s) (smap s) (writing s) (lock s) (sp s) (schan s) (committed s) (delivered s) (panic s) x.
+Definition set_lock s x := mkst (keys s) (capS s) (capC s) (gs s) (chs s) (smap s) (writing s) x (sp s) (schan s) (committed s) (delivered s) (panic s) (race s).
 Definition set_g s r p := set_gs s (upd r p (gs s)).
 
-Definition iterating (s : st) : bool := match sp s with SIdle => false | _ => true end.
+Definition iterating (s : st) : bool := match sp s with SIdle | SWant _ => false | _ => true end.
 
-(** begin of a map write by stream r (mapassign / mapdelete): a second writer faults; overlapping an
-    iteration is a race *)
-Definition map_write_begin (s : st) (r : nat) (p : gpc) : st :=
-  match writing s with
-  | Some _ => set_panic s PMapWrites
-  | None => set_g (set_writing (set_race s (race s || iterating s)) (Some r)) r p
+(** mu.Lock() by stream r followed by the begin of its map write (mapassign / mapdelete).  The lock is
+    available only when nobody holds it.  The runtime checks stay: a second writer would fault, overlapping
+    an iteration would be a race — the theorems show the lock excludes both. *)
+Definition map_write_begin (s : st) (r : nat) (p : gpc) : option st :=
+  match lock s with
+  | LkFree =>
+      Some (match writing s with
+            | Some _ => set_panic s PMapWrites
+            | None => set_g (set_lock (set_writing (set_race s (race s || iterating s)) (Some r)) (LkWrite r)) r p
+            end)
+  | _ => None
   end.
 
 Definition step (l : label) (s : st) : option st :=
@@ -136,7 +149,12 @@ Definition step (l : label) (s : st) : option st :=
       else None
   | SRecv =>
       match sp s, schan s with
-      | SIdle, t :: r => Some (set_sp (set_schan s r) (SIter t (map fst (smap s)) []))
+      | SIdle, t :: r => Some (set_sp (set_schan s r) (SWant t))
+      | _, _ => None
+      end
+  | SLock =>
+      match sp s, lock s with
+      | SWant t, LkFree => Some (set_sp (set_lock s LkRead) (SIter t (map fst (smap s)) []))
       | _, _ => None
       end
   | SNext k =>
@@ -159,7 +177,7 @@ Definition step (l : label) (s : st) : option st :=
           if forallb (fun e => negb (memb (fst e) snap) || memb (fst e) vis) (smap s)
           then match writing s with
                | Some _ => Some (set_panic s PMapIterWrite)
-               | None => Some (set_sp s SIdle)
+               | None => Some (set_sp (set_lock s LkFree) SIdle)
                end
           else None
       | _ => None
@@ -179,14 +197,14 @@ Definition step (l : label) (s : st) : option st :=
       end
   | GInsB r =>
       match nth_error (gs s) r with
-      | Some GNew => Some (map_write_begin s r GIns)
+      | Some GNew => map_write_begin s r GIns
       | _ => None
       end
   | GInsE r =>
       match nth_error (gs s) r with
       | Some GIns =>
           let k := nth r (keys s) 0 in
-          Some (set_g (set_writing (set_smap s ((k, r) :: remove_key (smap s) k)) None) r GLoop)
+          Some (set_g (set_lock (set_writing (set_smap s ((k, r) :: remove_key (smap s) k)) None) LkFree) r GLoop)
       | _ => None
       end
   | GRecv r =>
@@ -207,7 +225,7 @@ Definition step (l : label) (s : st) : option st :=
       end
   | GDelB r =>
       match nth_error (gs s) r with
-      | Some GDel => Some (map_write_begin s r GDeling)
+      | Some GDel => map_write_begin s r GDeling
       | _ => None
       end
   | GDelE r =>
@@ -218,7 +236,16 @@ Definition step (l : label) (s : st) : option st :=
       end
   | GCloseL r =>
       match nth_error (gs s) r, nth_error (chs s) r with
-      | Some GClose, Some ch => Some (set_g (set_chs s (upd r (mkchan (q ch) true) (chs s))) r GDone)
+      | Some GClose, Some ch => Some (set_g (set_lock (set_chs s (upd r (mkchan (q ch) true) (chs s))) LkFree) r GDone)
+      | _, _ => None
+      end
+  | GDrain r =>
+      match nth_error (gs s) r, nth_error (chs s) r with
+      | Some (GDel | GDeling | GClose), Some ch =>
+          match q ch with
+          | _ :: rest => Some (set_chs s (upd r (mkchan rest (closed ch)) (chs s)))
+          | [] => None
+          end
       | _, _ => None
       end
   end
@@ -239,6 +266,6 @@ Definition stable (l : label) : bool := match l with GSend _ false => false | _ 
 (** an internal (master-side, non-WAL-loop) step is enabled: the sender goroutine or some stream
     goroutine can move; [n] bounds the stream ids, keys are searched among [keys s] *)
 Definition internal_enabled (s : st) : bool :=
-  enabled SRecv s || enabled SEnd s || enabled SSend s
+  enabled SRecv s || enabled SLock s || enabled SEnd s || enabled SSend s
   || existsb (fun k => enabled (SNext k) s) (keys s)
   || existsb (fun r => enabled (GRecv r) s || enabled (GSend r true) s) (seq 0 (length (keys s))).
